@@ -86,6 +86,17 @@ func tmpl(items []gItem, cur, next ssa.Value) string {
 		case it.Echo == next:
 			sb.WriteString("<c>")
 		default:
+			// g[i : i+2] with g[i] the current byte: the current byte and the one behind it, as they are
+			if sl, ok := core.Unwrap(it.Echo).(*ssa.Slice); ok && cur != nil {
+				if sx, sidx, ok := strIndex(cur); ok && sl.X == sx && sl.Low == sidx && sl.High != nil {
+					if hb, ok := sl.High.(*ssa.BinOp); ok && hb.Op == token.ADD && hb.X == sidx {
+						if k, ok := core.ConstInt(hb.Y); ok && k == 2 {
+							sb.WriteString("<b><c>")
+							continue
+						}
+					}
+				}
+			}
 			sb.WriteString("<?>")
 		}
 	}
